@@ -483,6 +483,10 @@ def count_obligations(r):
         failed = {f['name'] for f in r['failed']} | {f['name'] for f in r.get('failed_not_used_here', [])}
         if r['status'] == 'pass':
             return n, max(0, n - len(failed))
+        if r['status'] == 'known-finding':
+            # every failed obligation of this unit is an `open:` line of known_findings.txt: those obligations are NOT part of
+            # what the proof-level claim covers (the claim text says so); they are reported under coverage.known_findings
+            return max(0, n - len(failed)), max(0, n - len(failed))
         return n, max(0, n - len(failed)) if r['status'] == 'violation' else 0
     n = r.get('n_obligations', 0)
     return n, r.get('n_discharged', 0)
@@ -540,7 +544,7 @@ def write_evidence(pid, tier, results, violations, wall, known=None):
             'trusted_base': trusted,
             'samples': samples,
             'units': units_doc,
-            'explanation': 'obligations = named ensures/invariant/loop-exit clauses + one safety obligation per function (overflow, callee preconditions, termination) for Verus units; Kani units count one obligation per contract/harness property checked over the full symbolic domain. Bounded stand-ins are listed separately and not counted. Units with role `dependency` are units whose proved contracts are used (through [[include]]) by a unit serving this property; they are re-verified in the same run on the current tree and their obligations are included in the totals.',
+            'explanation': 'An obligation that fails on the unchanged tree and is listed as an `open:` known finding is excluded from both counts and listed under known_findings. obligations = named ensures/invariant/loop-exit clauses + one safety obligation per function (overflow, callee preconditions, termination) for Verus units; Kani units count one obligation per contract/harness property checked over the full symbolic domain. Bounded stand-ins are listed separately and not counted. Units with role `dependency` are units whose proved contracts are used (through [[include]]) by a unit serving this property; they are re-verified in the same run on the current tree and their obligations are included in the totals.',
         },
         'assumptions': trusted,
         'wall_s': round(wall, 2),
